@@ -2,7 +2,8 @@
    Only statements, [exact] of a lemma from Proofs/, and Print Assumptions.
    All theorems are about Gen.bitfun (regenerated from /repo/ppci/utils/bitfun.py on every run) and
    Gen.wasm_rt_bits (the bit-operation wrappers of /repo/ppci/wasm/execution/runtime.py). *)
-From PV Require Import Lib.Py Spec.BitsSpec Gen.bitfun Gen.wasm_rt_bits Proofs.C39_bitfun Proofs.C39_bitfun2.
+From PV Require Import Lib.Py Spec.BitsSpec Spec.BitsSpecExt Gen.bitfun Gen.wasm_rt_bits Proofs.C39_bitfun Proofs.C39_bitfun2
+  Proofs.C39_bitfun3.
 Open Scope Z_scope.
 
 Theorem c39_rotl : forall v count bits, 0 < bits -> 0 <= v < 2 ^ bits ->
@@ -154,6 +155,44 @@ Theorem c39_extend_s : forall x,
 Proof. exact extend_correct. Qed.
 Print Assumptions c39_extend_s.
 
+(* ---- wave 5: field-encoding helpers wrap_negative / inrange and align (every value, every width >= 1) *)
+(* wrap_negative succeeds exactly on values that fit the n-bit field (signed or unsigned reading) and then
+   returns the two's-complement bit pattern value mod 2^bits *)
+Theorem c39_wrap_negative : forall value bits u, 1 <= bits ->
+  (wrap_negative value bits = Ok u <-> fits_field bits value /\ u = unsigned_of bits value).
+Proof. exact wrap_negative_iff. Qed.
+Print Assumptions c39_wrap_negative.
+
+(* every other value is rejected with the documented ValueError (never an internal error) *)
+Theorem c39_wrap_negative_rejects : forall value bits, 1 <= bits -> ~ fits_field bits value ->
+  wrap_negative value bits = Diag 1.
+Proof. exact wrap_negative_rejects. Qed.
+Print Assumptions c39_wrap_negative_rejects.
+
+(* relation of two helpers: to_signed inverts wrap_negative on the signed range *)
+Theorem c39_wrap_negative_to_signed : forall value bits, 1 <= bits -> fits_signed bits value ->
+  exists u, wrap_negative value bits = Ok u /\ to_signed u bits = Ok value.
+Proof. exact wrap_negative_to_signed. Qed.
+Print Assumptions c39_wrap_negative_to_signed.
+
+(* inrange decides the signed n-bit range ... *)
+Theorem c39_inrange : forall value bits, 1 <= bits ->
+  exists b, inrange value bits = Ok b /\ (b = true <-> fits_signed bits value).
+Proof. exact inrange_fits. Qed.
+Print Assumptions c39_inrange.
+
+(* ... i.e. it answers whether the two's-complement reading (to_signed / sign_extend) preserves the value *)
+Theorem c39_inrange_signed_of : forall value bits, 1 <= bits ->
+  inrange value bits = Ok (signed_of bits value =? value).
+Proof. exact inrange_signed_of. Qed.
+Print Assumptions c39_inrange_signed_of.
+
+(* align rounds up to the least multiple of m (m > 0; fuel >= m always suffices) *)
+Theorem c39_align : forall fuel value m, 0 < m -> (Z.to_nat m <= fuel)%nat ->
+  exists r, align fuel value m = Ok r /\ is_align_up m value r.
+Proof. exact align_correct. Qed.
+Print Assumptions c39_align.
+
 (* non-vacuity: the hypotheses are met by concrete non-trivial values, and the conclusions
    compute to the expected numbers *)
 Example c39_nonvacuous :
@@ -166,5 +205,8 @@ Example c39_nonvacuous :
   value_to_bytes_big_endian 0x123456 4 = Ok [0; 0x12; 0x34; 0x56] /\
   value_to_bytes_big_endian (-2) 2 = Ok [0xFF; 0xFE] /\
   i32_rotl (-2147483648) 1 = Ok 1 /\ i32_rotr 1 1 = Ok (-2147483648) /\ i32_clz 40 (-1) = Ok 0 /\
-  i64_ctz 70 (-9223372036854775808) = Ok 63 /\ i32_popcnt (-1) = Ok 32 /\ i32_extend8_s 0x80 = Ok (-128).
+  i64_ctz 70 (-9223372036854775808) = Ok 63 /\ i32_popcnt (-1) = Ok 32 /\ i32_extend8_s 0x80 = Ok (-128) /\
+  wrap_negative (-1) 8 = Ok 0xFF /\ wrap_negative 255 8 = Ok 255 /\ wrap_negative 256 8 = Diag 1 /\
+  wrap_negative (-129) 8 = Diag 1 /\ inrange (-128) 8 = Ok true /\ inrange 128 8 = Ok false /\
+  align 10 13 8 = Ok 16 /\ align 10 (-3) 4 = Ok 0.
 Proof. vm_compute. repeat split. Qed.
